@@ -152,3 +152,63 @@ def c10(report, cfg):
                     report.violated("R10.1", key, "%s %s: byte %d bit %d is %s, not the original block bit"
                                     % (name, order, i // 8, i % 8, bv.show_bit(got[i], 3)[:300]), graphs=(got, bbits))
             engine_guard(go, report, "R10.1", key)
+
+
+def _slice_methods(f, name):
+    """The other ways the cipher traits offer to run the cipher on blocks: (label, instance, kind)."""
+    out = []
+    for lab, tr, meth, kind in (("encrypt_blocks", "BlockEncrypt", "encrypt_blocks", "slice"), ("decrypt_blocks", "BlockDecrypt", "decrypt_blocks", "slice"),
+                                ("encrypt_par_blocks", "BlockEncrypt", "encrypt_par_blocks", "par"), ("decrypt_par_blocks", "BlockDecrypt", "decrypt_par_blocks", "par")):
+        ks = f.find(r"^<threefish_cipher::%s as cipher::block::%s>::%s$" % (name, tr, meth))
+        if len(ks) == 1:
+            out.append((lab, ks[0], kind))
+    return out
+
+
+def c10_slices(report, cfg):
+    """R9.3 / R10.2: the slice and par-block methods of BlockEncrypt / BlockDecrypt act block by block exactly
+    as encrypt_block / decrypt_block (so the inverse relation and the conformance carry over to them)."""
+    f = facts.load(cfg)
+    n = 0
+    for name, nw in SIZES.items():
+        nb = nw * 8
+        meths = _slice_methods(f, name)
+        if len(meths) < 4:
+            report.undecide("R10.2", "%s:slice methods@%s" % (name, cfg), "expected encrypt/decrypt_blocks and _par_blocks instances, found %s" % [m[0] for m in meths])
+            continue
+        for lab, key_m, kind in meths:
+            ikey = "%s::%s@%s" % (name, lab, cfg)
+            n += 1
+
+            def go():
+                bv.reset()
+                it = Interp(f, MODELS)
+                single = find(f, r"^<threefish_cipher::%s as cipher::block::Block%s>::%s_block$" % (name, "Encrypt" if lab.startswith("enc") else "Decrypt", lab[:7]))
+                sty = "threefish_cipher::%s" % name
+                fish = it.from_bits(bv.inp("sk", it.ty.size_bits(sty)), sty)
+                fcell = it.new_cell(fish, "fish")
+                nblk = 2 if kind == "slice" else 1
+                bbits, bcell = bytes_cell(it, "blocks", nb * nblk)
+                argty = it.ty.get(f.instances[key_m]["body"]["locals"][2])["pointee"]
+                if kind == "slice":
+                    arg = Ptr(bcell, (), idx=0, meta=nblk, ety="u8", vty=it.ty.get(argty)["elem"])
+                else:
+                    arg = Ptr(bcell, (), idx=0, meta=None, ety="u8", vty=argty)
+                it.call_instance(key_m, [Ptr(fcell, ()), arg])
+                got = cell_bytes(bcell)
+                if assert_audit(it, report, "R10.2", ikey):
+                    return
+                exp = ()
+                for i in range(nblk):
+                    _, c1 = bytes_cell(it, "b%d" % i, nb)
+                    c1.v = Agg(bbits[8 * (nb * i + j):8 * (nb * i + j) + 8] for j in range(nb))
+                    it.call_instance(single, [Ptr(fcell, ()), Ptr(c1, ())])
+                    exp += cell_bytes(c1)
+                i = bv.first_diff(got, exp)
+                if i is None:
+                    report.ok("R10.2", ikey, sample={"cipher": name, "method": lab} if name == "Threefish512" else None)
+                else:
+                    report.violated("R10.2", ikey, "%s::%s does not act on block %d as %s_block does (byte %d)" % (name, lab, i // (8 * nb), lab[:7], (i // 8) % nb),
+                                    graphs=(got, exp))
+            engine_guard(go, report, "R10.2", ikey)
+    return n
